@@ -131,6 +131,16 @@ def mon(w):
         w.flag("monitor-lifecycle", "timer-without-connection", "no connection in use but the ping timer is still pending")
     if L._connection is not None and L._traffic is not None and L._timer is None:
         w.flag("monitor-lifecycle", "no-timer-with-connection", "a connection is in use but no ping timer is pending (monitoring did not resume)")
+    # a connection that both ends have selected and that is still open must be monitored by the Leader
+    from ..core import canon as _canon
+    from ..env.dilation import dconnection as _dc
+    for (l, sd, p) in w.protos(0):
+        if _canon.machine_state(p, _dc.DilatedConnectionProtocol.m) == "selected" and not any(e.transport.closed or e.transport.disconnecting for e in l.ends) \
+                and not l.broken:
+            if L._connection is not p or L._timer is None:
+                w.flag("monitor-lifecycle", "selected-connection-not-monitored",
+                       "the Leader selected link %d (open) but is not monitoring it: Manager._connection %s, timer %s, manager state %s; logged %r" % (
+                           l.idx, "set" if L._connection is p else "not this one", "pending" if L._timer else "none", w.mstate(0), w.logged[-1:]))
 
 
 def fin(w):
